@@ -2,10 +2,10 @@
 """Write seeded/MATRIX.md and refresh seeded/*/meta.json from a matrix run (tools/seed_matrix.sh output)."""
 import json, os, re, sys
 ROOT = os.path.dirname(os.path.dirname(os.path.abspath(__file__)))
-lines = [l for l in open(sys.argv[1]) if re.match(r"C\d\d[ab] C\d\d rc=", l)]
+lines = [l for l in open(sys.argv[1]) if re.match(r"C\d\d[a-d] C\d\d rc=", l)]
 rows = []
 for l in lines:
-    m = re.match(r"(C\d\d[ab]) (C\d\d) rc=(\d+)(.*)", l)
+    m = re.match(r"(C\d\d[a-d]) (C\d\d) rc=(\d+)(.*)", l)
     seed, prop, rc, rest = m.group(1), m.group(2), int(m.group(3)), m.group(4)
     sigs = sorted(set(re.findall(r"signature=(C\d\d/\S+)", rest)))
     rows.append((seed, prop, rc, sigs))
